@@ -306,7 +306,7 @@ func (c *keyCache) load(meta KeyMeta, loader func(KeyMeta) (*internal.CryptoKey,
 	e, ok := c.read(meta)
 
 	switch {
-	case ok:
+	case ok && e.key.Created() == k.Created():
 		// existing key in cache. update revoked status and last loaded time and close key
 		// we just loaded since we don't need it
 		e.key.SetRevoked(k.Revoked())
@@ -314,8 +314,9 @@ func (c *keyCache) load(meta KeyMeta, loader func(KeyMeta) (*internal.CryptoKey,
 
 		k.Close()
 	default:
-		// first time loading this key into cache or we have an ID-only key with mismatched
-		// create timestamps
+		// first time loading this key into cache, or the loader returned a different key than
+		// the cached one (e.g. the cached latest key was revoked or expired and has been rotated),
+		// in which case the loaded key must replace it rather than lend it its revocation status
 		e = newCacheEntry(k)
 	}
 
